@@ -394,3 +394,34 @@ func TestC12Adjacency(t *testing.T) {
 	}
 	run.Exhaustive()
 }
+
+// TestC12PaddedParts: a literal denotes the number written however many
+// redundant zeros (and separators) its parts carry.
+func TestC12PaddedParts(t *testing.T) {
+	var lits []string
+	for _, k := range []int{1, 8, 16, 17, 18, 19, 20, 21, 32, 40, 64} {
+		z := strings.Repeat("0", k)
+		zs := strings.Repeat("0_", k/2) + "0"
+		lits = append(lits, "1e"+z+"2", "25E+"+z+"1", "2.5e-"+z+"1", ".5e"+z, "7e"+z+"0", "1_0e"+zs+"3", "1e-"+z+"02", z+"12", z+"1.5", "1."+z+"5"+z, z+"."+z+"5", "3."+z, z+"7e"+z+"1", zs+"4")
+	}
+	run := h.Begin("C12", "padded-parts", fmt.Sprintf("enumerated: %d literals whose integer, fraction and exponent parts carry 1..64 redundant zeros (with and without digit separators, both exponent signs); oracle as for valid literals in the exhaustive part (the value written, in every context); every case non-trivial", len(lits)))
+	defer run.End(t)
+	for i, lit := range lits {
+		if !h.Mine(int64(i)) || run.NViolations() >= 3 {
+			continue
+		}
+		msg, cls := checkLiteral(lit)
+		if cls != "valid" {
+			run.Fail("c12", mkTextCase(lit, ""), fmt.Sprintf("HARNESS: %q is classified %s by the reference tokenizer", lit, cls))
+			continue
+		}
+		run.Count(true, "")
+		if i%17 == 0 && len(lit) < 80 {
+			run.Sample("padded", lit)
+		}
+		if msg != "" {
+			run.Fail("c12", mkTextCase(lit, ""), msg)
+		}
+	}
+	run.Exhaustive()
+}
